@@ -27,8 +27,9 @@ Contract (deal ``ensure`` on the ``add`` wrapper, i.e. after EVERY insertion):
 
 A failure of the hand-back clause carries ``witness["kind"]``: "foreign-parent-factory-rule" when every rule recorded
 under the failing key was produced by a StrategyFactory while the searcher was expanding a class that is neither
-the rule's parent nor one of its children (KNOWN finding: RecomputingDict replays the pack only on the classes of the
-key; decided by an observer on ``_expand_class_with_strategy``), "other" for anything else.
+the rule's parent nor one of its children (decided by an observer on ``_expand_class_with_strategy``) AND replaying
+the pack on the classes of the key does not give the rule (decided by the harness on classes) -- the KNOWN finding:
+RecomputingDict replays the pack only on the classes of the key; "other" for anything else.
 
 Packs: those of the universe, "sibling", "longverif3" and three in which one pair of classes is joined both by a one-way
 and by a two-way single-child rule (inserting the two-way rule makes RuleDBBase.add withdraw the one-way entries of the
@@ -37,8 +38,15 @@ pair, in either orientation, from the rule store): "swapboth" (OneWaySwap then S
 last for images) and "addstat-drop" (AddStat: class -> class tracking one more statistic, one-way; DropZeroStats brings
 the child back to the class by a two-way rule in the opposite orientation when that statistic vanishes).
 
+Second universe (harness.universe, plane trees): TreeClass(degrees, roots, forbidden parent/child degree pairs) with
+the packs TREE_PACKS -- root split (a union whose children can be empty because no finite tree has that root degree),
+root removal  node x subtree^r  (a product with the SAME child r times: stored keys with repeated labels, the node
+first or last), the two-way single-child PruneDegrees as inferral strategy, and a factory of ready rules.  The same
+lock-step comparison runs on it unchanged; the mutated keys include a stored key with its repeated children collapsed
+to one occurrence and with one child doubled (membership is about multisets of children).
+
 After the search: if a specification exists, the one extracted from the SHADOW (``get_specification_rules``) must
-count the start class like brute force (n <= 5).
+count the start class like brute force (words: n <= 5; trees: n <= 7, and generate the same trees for n <= 5).
 """
 import contextlib
 import itertools
@@ -80,6 +88,14 @@ from harness.universe import (
     silence,
     spec_check,
 )
+from harness.universe import (
+    TREE_PACKS,
+    TREE_STARTS,
+    TreeClass,
+    tree_class_from_repr,
+    tree_spec_check,
+    tree_truly_empty,
+)
 
 NPROC = 16
 COUNTS = Counter()
@@ -100,8 +116,27 @@ def _note(check, what, kind=None):
     return False
 
 
-def truly_empty(cls: Av) -> bool:
+def truly_empty(cls) -> bool:
+    if isinstance(cls, TreeClass):
+        return tree_truly_empty(cls)
     return not brute_objects(cls, len(cls.prefix))
+
+
+def any_class_from_repr(text: str):
+    if text.startswith("TreeClass("):
+        return tree_class_from_repr(text)
+    return class_from_repr(text)
+
+
+def check_specification(spec, start):
+    """Disagreements of a specification with brute force on the start class."""
+    if isinstance(start, TreeClass):
+        return tree_spec_check(spec, start, 7)
+    return spec_check(spec, start, 5)
+
+
+def make_pack(name):
+    return (PACKS[name] if name in PACKS else TREE_PACKS[name])()
 
 
 # --------------------------------------------------------------------------------------------------------------
@@ -235,6 +270,7 @@ def _mutants(key, nlabels, keyset):
         (nlabels + 5, ends),
         (ends[0], (start,)) if len(ends) == 1 else (start, ends + ends[:1]),
         (start, tuple(e + 1 for e in ends)),
+        (start, tuple(sorted(set(ends)))),  # repeated children collapsed (the key itself when there are none)
     ]
     for s, e in cands:
         out.append(((s, e), (s, tuple(sorted(e))) in keyset))
@@ -248,9 +284,30 @@ def _origin_kind(db, key):
     "other"."""
     primary = db if "_h" in db.__dict__ else db.__dict__.get("_h_primary")
     origins = _state(primary)["origins"].get(key, []) if primary is not None else []
-    if origins and all(o == "foreign-factory" for o in origins):
+    if origins and all(o == "foreign-factory" for o in origins) and not _replayable(primary, key):
         return "foreign-parent-factory-rule"
     return "other"
+
+
+def _replayable(primary, key):
+    """Does replaying the pack on the classes of the key (what RecomputingDict promises to do) give a rule with this
+    parent and this multiset of truly non-empty children?  Decided here on classes, without labelling anything."""
+    classdb = primary.classdb
+    parent = classdb.get_class(key[0])
+    wanted = Counter(classdb.get_class(l) for l in key[1])
+    for label in (key[0],) + tuple(key[1]):
+        comb_class = classdb.get_class(label)
+        for strat in primary.searcher.strategy_pack:
+            try:
+                produced = list(strat(comb_class)) if isinstance(strat, StrategyFactory) else [strat]
+                for x in produced:
+                    rule = x if hasattr(x, "children") else x(comb_class)
+                    if rule.comb_class == parent and Counter(
+                            c for c in rule.children if not truly_empty(c)) == wanted:
+                        return True
+            except Exception:  # pylint: disable=broad-except
+                continue  # the strategy does not apply to this class
+    return False
 
 
 def _reproduces(db, name, key, store, classdb):
@@ -348,6 +405,9 @@ def _compare(primary, final=False):
                 return _note("contains-agrees", f"step {step}: contains{variant} RuleDB {cp}, forget {cs}, "
                              f"key stored: {expected}")
     if expected_nontrivial(kp):
+        st["nontrivial"] = True
+    if any(len(set(ends)) < len(ends) for _, ends in kp[0]):
+        COUNTS["comparison-with-a-repeated-child-key-stored"] += 1
         st["nontrivial"] = True
     # value reads
     if everything:
@@ -462,7 +522,7 @@ def installed():
 
 def run_case(case):
     pack_name, start_repr, expand_verified, schedule = case
-    start = class_from_repr(start_repr)
+    start = any_class_from_repr(start_repr)
     witness = {"pack": pack_name, "start": start_repr, "expand_verified": expand_verified, "schedule": schedule}
     _LAST.clear()
 
@@ -488,7 +548,7 @@ def run_case(case):
     _EXPANDED_FOR.clear()
     try:
         css = CombinatorialSpecificationSearcher(
-            start, PACKS[pack_name](), ruledb=primary, expand_verified=expand_verified)
+            start, make_pack(pack_name), ruledb=primary, expand_verified=expand_verified)
         silence()
         spec = None
         with clock("eager" if schedule == "full" else "coarse", zlib.crc32(repr(case).encode()) ^ SEED[0]):
@@ -512,7 +572,7 @@ def run_case(case):
                     try:
                         rules = shadow.get_specification_rules(minimization_time_limit=0)
                         shadow_spec = CombinatorialSpecification(start, rules)
-                        problems = spec_check(shadow_spec, start, 5)
+                        problems = check_specification(shadow_spec, start)
                     except Exception as e:  # pylint: disable=broad-except
                         if st["known"] and isinstance(e, RuntimeError) and "Could not recompute" in str(e):
                             COUNTS["shadow-specification-blocked-by-known-finding"] += 1
@@ -522,7 +582,7 @@ def run_case(case):
                     if problems:
                         return viol("forget-specification", f"specification of the forget database: {problems[0]}"), st
         if spec is not None:
-            problems = spec_check(spec, start, 5)
+            problems = check_specification(spec, start)
             if problems:
                 return viol("default-specification", problems[0]), st
     except deal.ContractError:
@@ -569,11 +629,16 @@ def _cases(tier, seed):
                 cases.append((pack_name, repr(start), False, schedule))
                 if non_atom_ver:
                     cases.append((pack_name, repr(start), True, schedule))
-    return cases, len(starts)
+    trees = TREE_STARTS(tier, seed)
+    for pack_name in TREE_PACKS:
+        for start in trees:
+            for schedule in ("full", "light"):
+                cases.append((pack_name, repr(start), False, schedule))
+    return cases, len(starts), len(trees)
 
 
 def run(tier, seed):
-    cases, nstarts = _cases(tier, seed)
+    cases, nstarts, ntrees = _cases(tier, seed)
     nchunks = NPROC * 8
     chunks = [cases[i::nchunks] for i in range(nchunks)]
     ctx = multiprocessing.get_context("fork")
@@ -599,16 +664,21 @@ def run(tier, seed):
                   "<= 2 patterns of length <= 3, a few with 3; prefix length <= 2; 0-2 statistics) x 2 schedules "
                   "(full: has_specification compared after every insertion, specification looked for after every "
                   "work packet; light: compared when the search asks, queue drained first) x expand_verified for "
-                  "packs with non-atom verification; comparison after EVERY insertion and at the end (search "
+                  f"packs with non-atom verification; plus {len(TREE_PACKS)} tree packs (root split, root removal = "
+                  f"node x subtree^r with the same child r <= 3 times, node first / last, PruneDegrees as inferral, a "
+                  f"factory of ready rules) x {ntrees} tree classes (degrees within 0..3 with 0, root degrees = degrees "
+                  "or <= 2 given ones, <= 5 forbidden parent/child degree pairs, some empty / finite / single-node) x 2 "
+                  "schedules; comparison after EVERY insertion and at the end (search "
                   "continued one level after its end); contains queried on every stored key at every insertion; "
-                  "<= 5 permutations and 9 mutated keys per key, and every key re-read, for the keys just inserted "
+                  "<= 5 permutations and 10 mutated keys per key, and every key re-read, for the keys just inserted "
                   f"and for all keys while <= {SMALL} keys, every {EVERY}th insertion and at the end"),
         "evaluations": len(cases),
         "distinct_nontrivial": sum(1 for _, _, nt, _ in infos if nt),
         "insertions_compared": sum(n for _, n, _, _ in infos),
         "rule": ("one evaluation = one search (pack, start, expand_verified, schedule), enumerated without repetition; "
-                 "non-trivial when the databases held a two-way equivalence key, or a non-atom verification rule, or "
-                 "re-reading a key of the forget database labelled a class the search had not labelled"),
+                 "non-trivial when the databases held a two-way equivalence key, or a key with a repeated child, or a "
+                 "non-atom verification rule, or re-reading a key of the forget database labelled a class the search "
+                 "had not labelled"),
         "exhaustive": False,
         "contracts_evaluated": dict(counts),
         "samples": samples,
